@@ -113,6 +113,20 @@ Fixpoint loop (sigs : list osig) (args : list arg) (anys uanys unions : list rty
       end
   end.
 
+(* the same loop, factored the way the source is written: the CallReturn of one
+   overload, one step of the loop body, the code after the loop.  The translator
+   (harness/translate/overload.py) regenerates gen_is_overload / gen_step /
+   gen_after_loop from OverloadedSignature.check_call; Proofs/OverloadPins.v
+   proves that the loop built from them is [loop]. *)
+Record callret := mkCR { cr_error : bool; cr_any : bool; cr_remaining : option (list arg); cr_ret : rtype }.
+Inductive lstep :=
+| LContinue (args : list arg) (anys uanys unions : list rtype)
+| LReturn (r : result).
+
+Definition call_of (is_ov : bool) (s : osig) (args : list arg) : callret :=
+  let '(err, ua, new) := check_params is_ov (os_params s) args false false None in
+  mkCR err ua new (os_ret s).
+
 (* the bind pre-filter: only signatures whose bind_arguments succeeded take
    part; none binds -> "Cannot call overloaded function" *)
 Definition resolve (sigs : list osig) (args : list arg) : result :=
